@@ -21,6 +21,7 @@ STACK_NAMES = ("stack", "stack2")      # stack 0 is a character prefix of stack 
 # table files kept outside the installation directories (what `declare -m <path>` can name): [stack index, path], content id.
 # `ups_db_tables` is a sibling of `ups_db` whose name begins like it.
 TFILES = [[[0, "ups_db_tables/t1.table"], 1], [[1, "ups_db_tables/t2.table"], 2], [[NSTACKS, "tables/t3.table"], 3]]
+SYS = "S"                               # pseudo user: the cache directory inside ups_db/ of each stack
 STREAMS = (11, 12)                      # content ids of tables given as a stream (`declare -M`)
 OUTSIDE_NAME = "stack2x"                # directories outside every stack: both stack names are character prefixes of it
 USERS = ["A", "B"]
@@ -149,6 +150,9 @@ class World:
 
     # ---- cache files ------------------------------------------------------------------------
     def cache_dir(self, user, si):
+        """the cache directory of a user for a stack; user SYS: the one inside ups_db/ (eups admin buildCache -A)"""
+        if user == SYS:
+            return os.path.join(self.stacks[si], "ups_db")
         return os.path.join(self.uds[user], "_caches_", self.stacks[si][1:])
 
     def cache_file(self, user, si, flavor):
@@ -157,7 +161,7 @@ class World:
     def cache_state(self):
         """{(user, si, flavor): mtime} of the persisted caches of the two stacks"""
         out = {}
-        for u in self.uds:
+        for u in list(self.uds) + [SYS]:
             for si in range(NSTACKS):
                 d = self.cache_dir(u, si)
                 if os.path.isdir(d):
@@ -444,6 +448,28 @@ def _child_clearcache(world, user):
     return {"events": [x for x in events if x]}
 
 
+def _child_adminbuild(world, user, flavor):
+    """`eups admin buildCache -A` of one user: the CLI calls eups.app.clearCache(inUserDir=False), then
+    Eups(readCache=True, asAdmin=True).  On stacks without ups_db/global.tags the constructor ends with RuntimeError
+    ("Group not supported") in _loadServerTags, after the caches have been read or built: that ending is reported,
+    not hidden."""
+    _quiet_fds()
+    os.environ["EUPS_PATH"] = ":".join(world.stacks)
+    os.environ["EUPS_USERDATA"] = world.uds[user]
+    events = []
+    _install_audit(events)
+    import eups.app
+    import importlib
+    E = importlib.import_module("eups.Eups")
+    eups.app.clearCache(inUserDir=False)
+    exc = None
+    try:
+        E.Eups(readCache=True, asAdmin=True, flavor=flavor, quiet=1)
+    except RuntimeError as ex:
+        exc = str(ex)[:200]
+    return {"events": [x for x in events if x], "exc": exc}
+
+
 def _child_read(world):
     """Fresh reader through eups.db.Database only (no Eups instance, hence no cache traffic)."""
     _quiet_fds()
@@ -514,7 +540,7 @@ def rel_of(f, n, v):
 
 
 def gen_history(rng, ncmds, users=("A",), crash=0.0, rmcache=0.0, query=0.0, noaction=0.08, direct_tag=0.12,
-                remove=0.03, ext=0.08, tables=0.06):
+                remove=0.03, ext=0.08, tables=0.06, envrm=0.015):
     """A history weighted toward the order-sensitive patterns: few product names, tag - undeclare -
     redeclare, two flavors in one version file, the same product in both stacks."""
     names = rng.sample(NAMES, rng.choice([1, 1, 2, 3]))
@@ -531,11 +557,17 @@ def gen_history(rng, ncmds, users=("A",), crash=0.0, rmcache=0.0, query=0.0, noa
         user = rng.choice(users)
         r = rng.random()
         if r < rmcache:
-            if rng.random() < 0.25:
+            r3 = rng.random()
+            if r3 < 0.2:
                 cmds.append({"op": "clearcache", "user": rng.choice(users)})
+            elif r3 < 0.5:                                   # eups admin buildCache -A: the cache inside ups_db/
+                cmds.append({"op": "adminbuild", "user": rng.choice(users), "flavor": "generic" if rng.random() < 0.15 else "Linux"})
             else:
-                cmds.append({"op": "rmcache", "user": rng.choice(users), "stack": rng.randrange(NSTACKS),
+                cmds.append({"op": "rmcache", "user": rng.choice(list(users) + [SYS]), "stack": rng.randrange(NSTACKS),
                              "flavor": rng.choice(FLAVS)})
+            continue
+        if rng.random() < envrm:
+            cmds.append({"op": "envrmdir", "dir": rng.choice(all_dirs())})
             continue
         f = "generic" if rng.random() < pgen else "Linux"
         if r < rmcache + query:
@@ -664,6 +696,18 @@ def run_history(case, hash_noaction=True, probe=None, world_hook=None):
                 if r[0] == "ok":
                     events = r[1]["events"]
                 rec["caches_left"] = sorted(k for k in w.cache_state() if k.startswith(cmd["user"] + "/"))
+            elif cmd["op"] == "envrmdir":                     # somebody deletes an installation directory by hand
+                p = w.path_of(cmd["dir"])
+                rec["out"] = "ok"
+                if os.path.isdir(p):
+                    common.rmtree(p)
+            elif cmd["op"] == "adminbuild":
+                r = common.in_child(_child_adminbuild, w, cmd["user"], cmd.get("flavor", "Linux"))
+                ok = r[0] == "ok" and (r[1]["exc"] is None or r[1]["exc"].startswith("Group not supported"))
+                rec["out"] = "ok" if ok else "Other:%s" % (r[1],)
+                if r[0] == "ok":
+                    events = r[1]["events"]
+                rec["sys_caches"] = sorted(k for k in w.cache_state() if k.startswith(SYS + "/"))
             else:
                 h0 = w.tree_hash() if (hash_noaction and cmd.get("noaction")) else None
                 c = dict(cmd)
@@ -713,7 +757,7 @@ def run_history(case, hash_noaction=True, probe=None, world_hook=None):
     return steps
 
 
-UID = {"A": 0, "B": 1}
+UID = {SYS: 0, "A": 1, "B": 2}          # 0 = Cache.sysUser: the cache directory inside ups_db/
 
 
 def model_request(case, pinned=False, m="c06"):
@@ -725,6 +769,12 @@ def model_request(case, pinned=False, m="c06"):
             continue
         if c["op"] == "clearcache":
             cmds.append({"op": "clearcache", "user": UID[c["user"]]})
+            continue
+        if c["op"] == "adminbuild":
+            cmds.append({"op": "adminbuild", "user": UID[c["user"]], "self": c.get("flavor", "Linux")})
+            continue
+        if c["op"] == "envrmdir":
+            cmds.append({"op": "envrmdir", "dir": c["dir"]})
             continue
         d = {"op": c["op"], "user": UID[c.get("user", "A")], "self": c.get("flavor", "Linux")}
         for k in ("name", "version", "dir", "stack", "tag", "force", "noaction", "vat", "crash", "recursive", "setup", "ext",
